@@ -114,6 +114,23 @@ impl FraudProof for BadEncodingFraudProof {
                 (AxisType::Col, AxisType::Col) => header.dah.column_root(self.index).unwrap(),
             };
 
+            // the proof must be for the single leaf at the position this share is claimed
+            // to have in the tree it is proven against, otherwise proven shares of the
+            // same (or of a parallel) axis could be presented at positions of other shares
+            let leaf_idx = if *proof_axis == self.axis {
+                share_idx
+            } else {
+                usize::from(self.index)
+            };
+            if proof.start_idx() as usize != leaf_idx || proof.end_idx() as usize != leaf_idx + 1
+            {
+                bail_validation!(
+                    "fraud proof share {share_idx} has a proof for range {}..{} but is at index {leaf_idx} of its {proof_axis}",
+                    proof.start_idx(),
+                    proof.end_idx(),
+                );
+            }
+
             proof
                 .verify_range(&root, &[&share], **namespace)
                 .map_err(Error::RangeProofError)?;
